@@ -1,4 +1,5 @@
 import VermouthProofs.C02_Atoms
+import VermouthProofs.C02_Text
 import Generated.C02Tables
 /-!
 # C02 — a written ITP states exactly the molecule held in memory
@@ -177,6 +178,35 @@ theorem virtual_sitesn_layout (w : Nat) (a : Nat) (rest : List Nat) (funct : Str
     lineTokens (.inter w true (a :: rest) [funct] c)
       = toString a :: funct :: rest.map (fun (i : Nat) => toString i) := rfl
 
+/-! ## character level -/
+
+/-- **Splitter lemma**: for a written line whose token fields are non-empty and free of
+whitespace and `;` (`LineOk`), stripping the comment and splitting the rendered characters on
+whitespace gives back exactly the tokens of the line, whatever the column widths. -/
+theorem splitWs_renderLine (l : Line) (h : LineOk l) :
+    splitWs (stripComment (renderLine l).toList) = lineTokens l := by
+  unfold renderLine
+  rw [String.toList_ofList]
+  exact tokenize_renderLine l h
+
+/-- Reading the rendered text = reading the tokens of the lines (lines free of newlines). -/
+theorem parse_render_eq (tbl : List (String × Arity)) (ls : List Line)
+    (h : ∀ l ∈ ls, LineOk l ∧ NoNl l) :
+    parse tbl (render ls) = parseTokens tbl (ls.map lineTokens) :=
+  parse_render tbl ls h
+
+/-- **Round trip at character level**, stated with the token conditions on the written LINES
+(`LineOk`, `NoNl`) instead of on the molecule.
+Full statement intended (DESIGN 5.2):
+  `wellFormed tbl m = true → charOk m = true → ∃ ls, write m = .ok ls ∧ parse tbl (render ls) = .ok (canon m)`.
+Missing: the lemma `charOk m = true → ∀ l ∈ fileLines m, LineOk l ∧ NoNl l` (a membership walk over the
+writer's output; every field of every line is a field of `m` or `toString` of a number). -/
+theorem parse_write_partial (tbl : List (String × Arity)) (m : Mol) (h : wellFormed tbl m = true) :
+    ∃ ls, write m = .ok ls ∧
+      ((∀ l ∈ ls, LineOk l ∧ NoNl l) → parse tbl (render ls) = .ok (canon m)) := by
+  obtain ⟨ls, h1, h2⟩ := parse_write_tokens tbl m h
+  exact ⟨ls, h1, fun hl => by rw [parse_render tbl ls hl, h2]⟩
+
 /-! ## non-vacuity -/
 
 def exMol : Mol :=
@@ -199,5 +229,12 @@ unordered keys, a permuted / partly absent atom id, guards, groups, impropers, `
 example : ∃ ls, write exMol = .ok ls ∧ parseTokens arityTable (ls.map lineTokens) = .ok (canon exMol) :=
   parse_write_tokens_repo exMol (by decide)
 example : (exMol.atoms.map (·.key)).Nodup := by decide
+/-- a line with padding, an empty charge column and a comment satisfies `LineOk` -/
+example : LineOk (.inter 3 true [1, 22] ["1"] (some "c ; d")) := by
+  refine ⟨?_, by simp⟩
+  intro p hp
+  simp only [List.mem_singleton] at hp
+  subst hp
+  exact tokS_toString 1
 
 end C02
